@@ -1,0 +1,10 @@
+//go:build verif
+
+package kafkaconsumer
+
+import "context"
+
+// SetWaitCtxV replaces the context handed to rateLimiter.Wait (recoveryconsumer.go:301).  The context is used for
+// nothing else, so a harness can pass a context that counts how often the limiter is consulted without touching
+// the limiter itself.
+func (rc *RecoveryConsumer) SetWaitCtxV(ctx context.Context) { rc.ctx = ctx }
